@@ -234,11 +234,11 @@ def _fold_flow(ctx) -> None:
 
 def run(ctx) -> None:
     ctx.explanation = EXPLANATION
-    _dispatch(ctx)
-    _lattice(ctx)
-    _years(ctx)
-    _week(ctx)
-    _fold_flow(ctx)
+    ctx.step(_dispatch, ctx)
+    ctx.step(_lattice, ctx)
+    ctx.step(_years, ctx)
+    ctx.step(_week, ctx)
+    ctx.step(_fold_flow, ctx)
     ctx.expect_min("DISPATCH.exhaustive", 30)
     ctx.expect_min("LATTICE.fields", 100)
     ctx.expect_min("YEAR.form", 8)
